@@ -167,3 +167,92 @@ func usesHolder() error {
 	h := &holder{}
 	return h.prepare()
 }
+
+// ---- cross-function resolution (helper extraction must not change a verdict) ----
+
+// guardViaHelperGood: the err == nil test lives in a boolean helper.
+func produced(err error) bool { return err == nil }
+
+func guardViaHelperGood() {
+	p, err := produce()
+	if !produced(err) {
+		return
+	}
+	sink(p)
+}
+
+// guardViaHelperBad: the helper says yes without testing.
+func producedAnyway(err error) bool {
+	if cond() {
+		return true
+	}
+	return err == nil
+}
+
+func guardViaHelperBad() {
+	p, err := produce()
+	if !producedAnyway(err) {
+		return
+	}
+	sink(p)
+}
+
+// sinkInHelper: the guarded action moved into a helper with one call site.
+func doSink(p *int) { sink(p) }
+
+func sinkInHelper() {
+	p, err := produce()
+	if err != nil {
+		return
+	}
+	doSink(p)
+}
+
+// releaseInHelper: the tail that releases moved into a helper (once on every path).
+func tailRelease(x int) {
+	if x > 1 {
+		release()
+		return
+	}
+	release()
+}
+
+func releaseViaHelperOnce(x int) {
+	if x > 0 {
+		release()
+		return
+	}
+	tailRelease(x)
+}
+
+func releaseViaHelperTwice(x int) {
+	release()
+	tailRelease(x)
+}
+
+// claimedHelper: "returns false only after release()" - the false edge of a test
+// of its result counts as a release for a must-pass rule.
+func claimedHelper(x int) bool {
+	claimed := x == -1
+	if !claimed {
+		release()
+	}
+	return claimed
+}
+
+func passViaBoolHelperGood(x int) {
+	if claimedHelper(x) {
+		release()
+	}
+}
+
+func passViaBoolHelperBad(x int) {
+	if !claimedHelper(x) {
+		release()
+	}
+}
+
+// ---- decode destination reused across iterations ----
+type rec struct{ A, B string }
+
+func decode(dst *rec) {}
